@@ -39,7 +39,10 @@ macro_rules! backend_cases2 {
                 let (krin, krout, ksize, kb2k, dnum, dsize) =
                     (kv.g("krin"), kv.g("krout"), kv.g("ksize"), kv.g("kb2k"), kv.g("dnum"), kv.g("dsize"));
                 let big_scratch = || -> ScratchOwned<BE> { ScratchOwned::<BE>::alloc(1 << 23) };
-                let tb: usize = crate::cmd_scratch::$modname::tb_of(&module, op, kv)?;
+                let tb: usize = match crate::cmd_scratch::$modname::tb_of(&module, op, kv) {
+                    Some(t) => t,
+                    None => return crate::scratch_cases3::$modname::case(op, kv),
+                };
 
                 macro_rules! finish {
                     ($tb:expr, $f:expr) => {{
